@@ -36,7 +36,7 @@ MODELS_USED = ["symreal ExtensionArray", "symnp.quantile"]
 ASSUMPTIONS = ["floats as reals: n_valid/float(n_total) < 0.9 is modelled as 10*n_valid < 9*n_total (justified for float64 by the QF_FP lemma, thorough tier)",
                "end-to-end acceptance of arbitrary well-formed frames is checked on an enumerated catalogue only (structure is not solver-quantified)",
                "frequency detection and _check_extreme_values on year-long data are outside the claim"]
-EXPECTED_REGIMES = ["span below 329", "span above 365", "exactly 90% valid days", "just under 90%", "negative gas usage", "month under 90% temperature", "extreme value flagged"]
+EXPECTED_REGIMES = ["span below 329", "span above 365", "exactly 90% valid days", "just under 90%", "negative gas usage", "negative usage on a day without temperature", "month under 90% temperature", "extreme value flagged"]
 FAMS = {"daily": sc.DailySufficiencyCriteria, "billing": sc.BillingSufficiencyCriteria, "hourly": sc.HourlySufficiencyCriteria}
 P = "eemeter.sufficiency_criteria."
 
@@ -275,9 +275,9 @@ def _ienv(mdl, inputs):
     return {v.decl().name(): zval(mdl.eval(v, model_completion=True)) for v in inputs}
 
 
-def negative_run(n, electric, role, vals):
+def negative_run(n, electric, role, vals, temps=None):
     idx = frame_index(n, "daily")
-    df = pd.DataFrame({"observed": vals, "temperature": [50.0] * n}, index=idx)
+    df = pd.DataFrame({"observed": vals, "temperature": [50.0] * n if temps is None else temps}, index=idx)
     obj = mk(sc.DailySufficiencyCriteria, data=df, is_electricity_data=electric, is_reporting_data=(role == "reporting"))
     obj._check_negative_meter_values()
     ok = obj._check_no_data()
@@ -287,23 +287,26 @@ def negative_run(n, electric, role, vals):
 def replay_negative(inp):
     n = inp["n"]
     vals = [float(inp["env"].get(f"o{i}", 0.0)) if inp["states"][i] == "val" else np.nan for i in range(n)]
-    dq, ok = negative_run(n, inp["electric"], inp["role"], vals)
-    neg = any(v < 0 for v in vals if v == v)
+    tst = inp.get("tstates") or ["val"] * n
+    temps = [float(inp["env"].get(f"T{i}", 50.0)) if tst[i] == "val" else np.nan for i in range(n)]
+    dq, ok = negative_run(n, inp["electric"], inp["role"], vals, temps)
+    neg = any(v < 0 for v in vals if v == v)  # a negative reading counts whether or not that day has a temperature
     want_neg = neg and not inp["electric"] and inp["role"] == "baseline"
-    want_nodata = all(v != v for v in vals)
+    want_nodata = all(v != v or t != t for v, t in zip(vals, temps))
     bad = ((P + "negative_meter_values") in dq) != want_neg or ((P + "no_data") in dq) != want_nodata
-    return bad, f"{dq} for observed={vals}, electric={inp['electric']}, {inp['role']}"
+    return bad, f"{dq} for observed={vals}, temperature={temps}, electric={inp['electric']}, {inp['role']}"
 
 
 def run_negative(case):
     n = 3
-    case.inputs = [z3.Real(f"o{i}") for i in range(n)]
+    case.inputs = [z3.Real(f"o{i}") for i in range(n)] + [z3.Real(f"T{i}") for i in range(n)]
 
     def run():
         electric = F.choose("electric", [True, False])
         role = F.choose("role", ["baseline", "reporting"])
         vals, st = F.sym_cells("o", n)
-        return electric, role, st, negative_run(n, electric, role, SymArray(vals))
+        temps, tst = F.sym_cells("T", n)  # days without a temperature can still carry a (negative) reading
+        return electric, role, (st, tst), negative_run(n, electric, role, SymArray(vals), SymArray(temps))
 
     with sym_module():
         paths = case.explore(run)
@@ -311,12 +314,13 @@ def run_negative(case):
         if p.outcome != "ret":
             case.rep["harness_errors"].append(f"negative raised {p.value!r}")
             continue
-        electric, role, st, (dq, ok) = p.value
-        rp = ("negative", (lambda a, b, c: lambda mdl: dict(n=n, electric=a, role=b, states=c, env=_ienv(mdl, case.inputs)))(electric, role, st))
+        electric, role, (st, tst), (dq, ok) = p.value
+        rp = ("negative", (lambda a, b, c, d: lambda mdl: dict(n=n, electric=a, role=b, states=c, tstates=d, env=_ienv(mdl, case.inputs)))(electric, role, st, tst))
         neg = z3.Or(*[z3.Real(f"o{i}") < 0 for i in range(n) if st[i] == "val"]) if any(s == "val" for s in st) else z3.BoolVal(False)
         want = z3.And(neg, z3.BoolVal((not electric) and role == "baseline"))
         case.prove(p, z3.BoolVal((P + "negative_meter_values") in dq) == want, "negative usage disqualifies exactly non-electric baselines", replay=rp)
-        case.prove(p, ((P + "no_data") in dq) == all(s == "nan" for s in st), "no_data <=> every row has a missing value", replay=rp)
+        case.prove(p, ((P + "no_data") in dq) == all(s == "nan" or t == "nan" for s, t in zip(st, tst)), "no_data <=> every row has a missing value", replay=rp)
+        case.regime("negative usage on a day without temperature", any(s == "val" and t == "nan" for s, t in zip(st, tst)) and (P + "negative_meter_values") in dq)
         if (P + "negative_meter_values") in dq:
             case.regime("negative gas usage")
     case.sample(dict(check="_check_negative_meter_values/_check_no_data", rows=n))
